@@ -265,11 +265,46 @@ func (w *Walker) sortKey(k reflect.Value) string {
 		if n, ok := w.seen[k.UnsafePointer()]; ok {
 			return fmt.Sprintf("#%09d", n)
 		}
-		sub := &Walker{seen: map[unsafe.Pointer]int{}, special: w.special, skipPkgs: w.skipPkgs, depth: 190}
-		sub.walk(k.Elem(), "")
-		return "~" + sub.sb.String()
+		if k.IsNil() {
+			return "~nil"
+		}
+		return "~" + shallow(k.Elem(), 2)
 	}
-	sub := &Walker{seen: map[unsafe.Pointer]int{}, special: w.special, skipPkgs: w.skipPkgs, depth: 190}
-	sub.walk(k, "")
-	return sub.sb.String()
+	return shallow(k, 2)
+}
+
+// shallow renders only the scalar content of a value (no pointer following beyond the
+// given depth, no maps): enough to order pointer-keyed maps deterministically.
+func shallow(v reflect.Value, depth int) string {
+	v = access(v)
+	switch v.Kind() {
+	case reflect.Bool:
+		return fmt.Sprint(v.Bool())
+	case reflect.Int, reflect.Int8, reflect.Int16, reflect.Int32, reflect.Int64:
+		return fmt.Sprint(v.Int())
+	case reflect.Uint, reflect.Uint8, reflect.Uint16, reflect.Uint32, reflect.Uint64, reflect.Uintptr:
+		return fmt.Sprint(v.Uint())
+	case reflect.String:
+		return fmt.Sprintf("%q", v.String())
+	case reflect.Struct:
+		if !v.CanAddr() && v.CanInterface() {
+			nv := reflect.New(v.Type()).Elem()
+			nv.Set(v)
+			v = nv
+		}
+		var sb strings.Builder
+		sb.WriteString("{")
+		for i := 0; i < v.NumField(); i++ {
+			sb.WriteString(shallow(v.Field(i), depth))
+			sb.WriteString(",")
+		}
+		sb.WriteString("}")
+		return sb.String()
+	case reflect.Ptr, reflect.Interface:
+		if v.IsNil() || depth == 0 {
+			return "*"
+		}
+		return "*" + shallow(v.Elem(), depth-1)
+	}
+	return "_"
 }
